@@ -340,19 +340,23 @@ def render_module(spec, m: int, src_value=None) -> str:
             params.append(f"{dn}: Annotated[Path, DirectoryNode(root_dir=DATA / 'dir{tid}', pattern='*.txt'), Product]")
         if setup_fault == "marker":
             L.append("@pytask.mark.skipif()")        # bad marker call: no condition given
+        mark_lines = []
         for mk in t.get("marks", []):
             if mk == "skip":
-                L.append("@pytask.mark.skip")
+                mark_lines.append("@pytask.mark.skip")
             elif mk == "skipif_true_e":      # a true condition with an empty reason text
-                L.append("@pytask.mark.skipif(True, reason='')")
+                mark_lines.append("@pytask.mark.skipif(True, reason='')")
             elif mk == "skipif_true":
-                L.append("@pytask.mark.skipif(True, reason='cond true')")
+                mark_lines.append("@pytask.mark.skipif(True, reason='cond true')")
             elif mk == "skipif_false":
-                L.append("@pytask.mark.skipif(False, reason='cond false')")
+                mark_lines.append("@pytask.mark.skipif(False, reason='cond false')")
             else:
-                L.append(f"@pytask.mark.{mk}")
+                mark_lines.append(f"@pytask.mark.{mk}")
+        task_line = []
         if deco_kwargs or style in ("kwargs", "return") or t.get("force_decorator"):
-            L.append("@task(" + ", ".join(deco_kwargs) + ")")
+            task_line = ["@task(" + ", ".join(deco_kwargs) + ")"]
+        # optional spec field "marks_below": the marks are written BELOW @task(...) (applied first), which is equally legal
+        L.extend(task_line + mark_lines if t.get("marks_below") else mark_lines + task_line)
         params += late_params
         if t.get("hashed") or dir_names or late_params:
             params.insert(0, "*")                    # keyword-only: parameters without defaults may follow ones with defaults
